@@ -83,7 +83,7 @@ def build(sys):
             raise ValueError(t)
     g = sys["grid"]
     if g["kind"] == "uniform":
-        grid = j["UniformGrid"](spacing=g["spacing"])
+        grid = j["UniformGrid"](spacing=g["spacing"], center=tuple(g.get("center", (0, 0, 0))))
     else:
         import jax.numpy as jnp
         grid = j["RectilinearGrid"].custom(*[jnp.asarray(e, dtype=jnp.float64) for e in g["edges"]])
@@ -108,6 +108,31 @@ def grid_info(sys):
     except Exception:
         sys["_grid"] = None
     return sys["_grid"]
+
+
+def declared_edges(sys):
+    """the physical edge coordinates the USER declared, computed without looking at the resolved grid:
+    explicit edges, or for a UniformGrid policy  edge_i = centre_a - n_a*h/2 + i*h  (the documented centre-origin
+    convention; n_a from the volume's declared shape).  None when the declaration is incomplete."""
+    g = sys["grid"]
+    if g["kind"] != "uniform":
+        return [list(map(float, e)) for e in g["edges"]]
+    vols = [o for o in sys["objects"] if o["vol"]]
+    if len(vols) != 1:
+        return None
+    h = g["spacing"]
+    c = g.get("center", (0.0, 0.0, 0.0))
+    res = []
+    for a in range(3):
+        n = vols[0]["gshape"][a]
+        if n is None:
+            if vols[0]["rshape"][a] is None:
+                return None
+            n = round(vols[0]["rshape"][a] / h)
+        if n <= 0:
+            return None
+        res.append([c[a] - n * h / 2.0 + i * h for i in range(n + 1)])
+    return res
 
 
 def run_impl(sys, obj_order=None, con_order=None):
@@ -240,10 +265,14 @@ def c26_violations(sys, out):
     if not ok(out):
         return []
     gi = grid_info(sys)
-    E = gi["edges"]
+    # physical coordinates are taken from the DECLARED grid (centre/spacing/shape), never read back from the grid the
+    # implementation resolved: a misplaced resolved grid must show up as violated real-coordinate constraints
+    E = declared_edges(sys) or gi["edges"]
     sl = out["slices"]
     objs = sys["objects"]
     bad = []
+    if [len(e) for e in E] != [len(e) for e in gi["edges"]]:
+        return [f"the resolved grid has {[len(e) - 1 for e in gi['edges']]} cells, declared {[len(e) - 1 for e in E]}"]
     vol = next(i for i, o in enumerate(objs) if o["vol"])
     scale = max(abs(E[a][-1] - E[a][0]) for a in range(3))
     h = gi["h"]
@@ -469,7 +498,12 @@ def gen_system(rng, big=False):
     else:
         sp = rng.choice([1.0, 1.0, 0.5, 0.1, 2.5e-8])
         grid = {"kind": "uniform", "spacing": sp}
-        edges = [[(k - shape[a] / 2) * sp for k in range(shape[a] + 1)] for a in range(3)]
+        cen = [0.0, 0.0, 0.0]
+        if rng.chance(0.45):        # non-zero, pairwise different centre components, both signs, no multiples of the spacing
+            cen = [sp * x for x in rng.shuffle([0.3, -1.7, 2.45, -0.55, 3.2, -2.35, 1.15])[:3]]
+            grid["center"] = cen
+            tags["centre"] = "shifted"
+        edges = [[cen[a] + (k - shape[a] / 2) * sp for k in range(shape[a] + 1)] for a in range(3)]
     tags["grid"] = "nonuniform" if nonuni else ("explicit_uniform" if explicit_uniform else "uniform")
     n_other = rng.choice([0, 1, 1, 2, 2, 3, 3, 4, 5, 7] if not big else [2, 3, 4, 5, 6, 7, 7])
     tags["objects"] = n_other + 1
@@ -837,6 +871,26 @@ def staggered_systems(rng, n_random=6):
         out.append(staggered_system(rng, depth=rng.choice([1, 1, 2, 2, 3]), n_axes=rng.choice([2, 3]),
                                     delayed_first=rng.chance(0.6), dependents=rng.choice([1, 1, 2]), da=rng.randint(0, 2),
                                     free_dep=rng.chance(0.4)))
+    return out
+
+
+def centred_systems():
+    """UniformGrid policies with a shifted centre (components non-zero, pairwise different, both signs, not multiples
+    of the spacing) and real-coordinate constraints on EVERY axis, given at declared edge coordinates:
+    edge_i = centre_a - n_a*h/2 + i*h."""
+    out = []
+    for h, cen, shape in ((1.0, (0.3, -1.7, 2.45), (6, 5, 7)), (0.5, (-0.275, 1.6, -1.175), (4, 8, 6)),
+                          (2.5e-8, (8e-9, -4.25e-8, 6.125e-8), (5, 5, 5))):
+        e = [[cen[a] - shape[a] * h / 2.0 + i * h for i in range(shape[a] + 1)] for a in range(3)]
+        o = lambda n, v, g: {"name": n, "vol": v, "gshape": list(g), "rshape": [None] * 3, "rpos": [None] * 3}
+        objs = [o("vol", True, shape), o("A", False, (None, None, None)), o("B", False, (2, 1, 2))]
+        cons = [{"t": "R", "o": 1, "axes": [0, 1, 2], "sides": [False, False, False], "coords": [e[0][1], e[1][2], e[2][1]]},
+                {"t": "R", "o": 1, "axes": [2, 1, 0], "sides": [True, True, True],
+                 "coords": [e[2][shape[2] - 1], e[1][4], e[0][3]]},
+                {"t": "R", "o": 2, "axes": [2], "sides": [True], "coords": [e[2][4] + 0.2 * h]},
+                {"t": "R", "o": 2, "axes": [0, 1], "sides": [False, True], "coords": [e[0][2] - 0.3 * h, e[1][3]]}]
+        out.append({"grid": {"kind": "uniform", "spacing": h, "center": list(cen)}, "objects": objs, "constraints": cons,
+                    "max_iter": 1000})
     return out
 
 
